@@ -312,7 +312,7 @@ def _simple_op(gen):
         st.tuples(sockops.kind_and_params(gen), st.sampled_from(["idem", "nonidem", "conn"])).map(
             lambda t: ["send", t[0][0], t[0][1], t[1]]),
         st.sampled_from(["struct", "value", "notimpl"]).map(lambda v: ["send_bad", v]),
-        st.lists(st.tuples(st.sampled_from(["refuse", "timeout", "gaierror", "accept", "accept"]), st.sampled_from(LATS)).map(list),
+        st.lists(st.tuples(st.sampled_from(["refuse", "timeout", "gaierror", "unreachable", "accept", "accept"]), st.sampled_from(LATS)).map(list),
                  min_size=1, max_size=3).map(lambda s: ["script", s]),
         st.lists(st.integers(1, 6), min_size=1, max_size=3).map(lambda a: ["arm", a]),
     )
